@@ -48,6 +48,21 @@ def _tree_unit(unit):
     return acc
 
 
+def _tower_unit(trees):
+    acc = Acc()
+    for t in trees:
+        acc.count("states")
+        acc.count("nontrivial")
+        for st in ("min", "full"):
+            s = to_odata(t, st)
+            got = parse_text(s)
+            acc.count("executions")
+            acc.count("transitions")
+            if got != t:
+                acc.violation("tower:%s:%s" % (st, _opsig(t)), {"layer": "trees", "style": st, "text": s, "expected": t, "observed": got})
+    return acc
+
+
 def _opsig(t):
     """operator skeleton of a tree (dedup class for violations)"""
     ops = [s[1][0] for s in T.subterms(t) if s[0] in ("BinOp", "Compare", "BoolOp", "UnaryOp")]
@@ -113,6 +128,11 @@ def run(ctx):
         ctx.count("executions")
         if got != leaf:
             ctx.violation("leaf:" + leaf[0], {"layer": "trees", "style": "min", "text": s, "expected": leaf, "observed": got})
+
+    # ---- pumped towers: every ordered pair of operators alternated 5 / 8 (thorough: 12) times on either spine -------------
+    tw = list(T.op_towers((5, 8) if ctx.quick else (5, 8, 12)))
+    ctx.pmap(_tower_unit, [tw[i::32] for i in range(32)])
+    ctx.layer("towers", trees=len(tw), depths=[5, 8] if ctx.quick else [5, 8, 12], exhaustive=True)
 
     # ---- layer 3: negative --------------------------------------------
     kneg = 3 if ctx.quick else 4
